@@ -149,6 +149,7 @@ func cmdRun(args []string) int {
 	noReplay := fs.Bool("noreplay", false, "")
 	fs.Parse(args)
 	t0 := time.Now()
+	os.Setenv("VERIF_TIER_ACTIVE", *tier)
 	seed := 0
 	if s := os.Getenv("VERIF_SEED"); s != "" {
 		seed, _ = strconv.Atoi(s)
